@@ -260,6 +260,8 @@ def drive_e2e(case, workdir=None):
                 return enc.Err(type(ex).__name__)
         if rc != 0:
             return enc.Err("rc%s" % rc)
+        if not os.path.exists(outp):          # --tb writes <name>.pt.trace.json
+            outp = outp[:-5] + ".pt.trace.json"
         res = json.load(open(outp))
         byuid = {}
         for x in res["traceEvents"]:
@@ -357,8 +359,9 @@ def coq_ev(e):
 
 
 def prep_dropped(case, e):
-    """end to end the prep-queue counter removes Prep slices unless --keep_prep (documented rule, C13)"""
-    return (case.get("kind") == "e2e" and "--keep_prep" not in case.get("opts", [])
+    """end to end the prep-queue counter removes Prep slices unless --keep_prep (documented rule, C13); the profile
+    that --tb selects has no prep-queue counter stage"""
+    return (case.get("kind") == "e2e" and "--keep_prep" not in case.get("opts", []) and "--tb" not in case.get("opts", [])
             and e["name"].endswith(" Cmpt Prep") and e["ph"] == "X")
 
 
@@ -557,6 +560,8 @@ def gen_rank(r, pid, f, H, uid0, n_kernels, on_grid, jobs=1, e2e=False):
             cs.append(cs[-1] + g)
         rel.append(cs)
         cur = cs[4]
+        if r.random() < 0.15 and cs[4] > cs[3]:
+            cur = cs[3] + r.randint(0, cs[4] - cs[3] - 1)      # pipelined: the next kernel's DmaI starts inside this DmaO
     # align one chosen counter of one chosen kernel with a period boundary (+- a few cycles)
     tk, tj = r.randrange(n_kernels), r.randrange(5)
     delta = r.choice([-2, -1, 0, 0, 1, 2, r.randint(-3000, 3000), r.randint(0, W - 1)])
@@ -614,7 +619,8 @@ def gen_valid(r, on_grid=True, e2e=False, max_ranks=3, max_kernels=6):
             r.shuffle(evs)
     case = {"kind": "e2e" if e2e else "direct", "f": f, "ic": r.random() < 0.15, "events": evs}
     if e2e:
-        case["opts"] = r.choice([[], ["--keep_prep"], ["--keep_prep", "-M"], ["-t"], ["--keep_prep", "--ignore_crit"]])
+        case["opts"] = r.choice([[], ["--keep_prep"], ["--keep_prep", "-M"], ["-t"], ["--keep_prep", "--ignore_crit"],
+                                 ["--tb"], ["--tb", "--keep_prep"]])
         case["ic"] = "--ignore_crit" in case["opts"]
         case["attr"] = r.random() < 0.3
     return case
